@@ -128,6 +128,10 @@ func lockTrace(evs []evRec) string {
 			}
 		case "abort":
 			b.WriteString(" x")
+		case "name-lookup":
+			fmt.Fprintf(b, " l%d", e.arg)
+		case "name-add":
+			fmt.Fprintf(b, " i%d", e.arg)
 		}
 	}
 	var parts []string
